@@ -321,6 +321,8 @@ class Scripted(BaseAlgorithm):
             return {s: [[8.0, 16.0, 24.0, 32.0][(t + j - t0 + (i if p.get("skew") else 0)) % 4] for j in range(L)] for i, s in enumerate(sorted(net.station_ids))}
         if p["rule"] == "active-max":
             return {s.station_id: [float(net._EVSEs[s.station_id].max_rate)] * L for s in active_sessions}
+        if p["rule"] == "nearmax":  # just inside the EVSE's acceptance tolerance below its maximum (every EVSE class accepts it)
+            return {s: [float(net._EVSEs[s].max_rate) - 5e-4] * L for s in net.station_ids}
         if p["rule"] == "zeromax":  # 0 A in even periods, the maximum in odd ones (a delayed / pulsed start)
             return {s: [0.0 if (t + j) % 2 == 0 else float(net._EVSEs[s].max_rate) for j in range(L)] for s in net.station_ids}
         if p["rule"] == "empty":
